@@ -66,7 +66,13 @@ def build_jobs(tier, rep):
         for o in singles:
             if (k + hash(json.dumps(o, sort_keys=True))) % (4 if q else 1) == 0:
                 jobs.append((d, o, CFG))
-    rep.cov["bounds"] = {"L1_seeds_enumerated": len(l1), "seeds_used": len(seeds), "op_sequences": len(ops),
+    # stratum: indented code inside a quote / list (relative vs absolute indentation), every single-step form
+    import re
+    codeish = [d for d in l1 if re.search(r"(^|\n)(>|[-*+]|\d+[.)]) {5,}\S", d)]
+    for k, d in enumerate(gen.sample(codeish, 2500 if q else 40000, C.SEED + 7, keep_short=600)):
+        for o in singles:
+            jobs.append((d, o, CFG))
+    rep.cov["bounds"] = {"code_in_container_seeds": len(codeish), "L1_seeds_enumerated": len(l1), "seeds_used": len(seeds), "op_sequences": len(ops),
                          "seed_x_sequence_cases": len(jobs)}
     rep.cov["exhaustive"] = False
     return jobs
